@@ -15,6 +15,7 @@ so the value is a fixed power, prime to r, of the reduced pairing f^((p^12−1)/
 import Mathlib.FieldTheory.Finite.Basic
 import Mathlib.RingTheory.Coprime.Lemmas
 import RelicVerif.Lemmas.PpExp
+import RelicVerif.Lemmas.PpMiller
 
 namespace Relic.Props.C04B
 open Relic.Model.PpExp Relic.Gen.PpExp Relic.Lemmas.PpExp
@@ -186,9 +187,62 @@ theorem pp_exp_b12_field (hK : Fintype.card K = p ^ 12) (x r h : ℤ)
 
 end field
 
+/-! ### the Miller loops as coded (Model/PpMiller.lean, hand models executed by the driver) over an abstract Miller algebra
+
+`L2 t p` / `L t q p`: tangent / chord line values; the line functions of the code return the line value together with the
+doubled / added point (`algOps`).  Proved: loop structure, digit and sign handling, running point.  NOT proved: that the
+recurrence's value is the Miller function with divisor s(Q) − ([s]Q) − (s−1)(O) and hence bilinearity (divisor theory). -/
+section miller
+open Relic.Model.PpMiller Relic.Lemmas.PpMiller
+variable {F T P : Type} [CommMonoid F] [AddCommGroup T] (L2 : T → P → F) (L : T → T → P → F)
+
+/-- **pp_mil_k12 as coded** (NAF digits, peeled first iteration, inner loop over the pairs) computes the canonical
+    recurrence f ← f²·l_{[n]Q,[n]Q}(P), n ← 2n; digit ±1: f ← f·l_{[n]Q,±Q}(P), n ← n ± 1 from (1, 1), with the lines taken at
+    the integer multiples, and leaves every running point at [s]Q, s the integer the digits denote -/
+theorem mil_k12_recurrence (pairs : List (T × P)) (hp : pairs ≠ []) (naf : List ℤ) (d1 : ℤ) (ds : List ℤ)
+    (hn : naf.reverse = 1 :: d1 :: ds) (hd : ∀ d ∈ naf, d = -1 ∨ d = 0 ∨ d = 1) :
+    milK12 (algOps L2 L) pairs naf
+      = some ((fRecM L2 L pairs (d1 :: ds) (1, 1)).1, atIndex pairs (Relic.Model.Rec.eval 1 naf)) := by
+  rw [milK12_alg L2 L pairs hp naf 1 d1 ds hn]
+  have hd' : ∀ d ∈ d1 :: ds, d = -1 ∨ d = 0 ∨ d = 1 := by
+    intro d hmem
+    apply hd d
+    have : d ∈ naf.reverse := by rw [hn]; exact List.mem_cons_of_mem _ hmem
+    exact List.mem_reverse.mp this
+  rw [fRecM_index L2 L pairs (d1 :: ds) hd' 1 1]
+  have := eval_reverse naf
+  rw [hn] at this
+  simp only [List.foldl_cons, mul_zero, zero_add] at this
+  rw [List.foldl_cons, this]
+
+/-- **pp_mil_lit_k12 as coded** (plain bits below the top bit) computes the same recurrence from (r, 1) and leaves the running
+    points at [a]P -/
+theorem mil_lit_recurrence (pairs : List (T × P)) (r : F) (a : ℕ) (ha : a ≠ 0) :
+    ∃ bits : List ℤ, (∀ d ∈ bits, d = 0 ∨ d = 1) ∧ bits.foldl (fun acc d => 2 * acc + d) 1 = (a : ℤ) ∧
+      milLit (algOps L2 L) pairs r a = ((fRecM L2 L pairs bits (r, 1)).1, atIndex pairs (a : ℤ)) := by
+  refine ⟨(List.range (Relic.Model.Rec.bitLen a - 1)).reverse.map fun i => if a.testBit i then (1 : ℤ) else 0, ?_, bits_index a ha, ?_⟩
+  · intro d hmem
+    simp only [List.mem_map] at hmem
+    obtain ⟨i, _, rfl⟩ := hmem
+    split <;> simp
+  · rw [milLit_alg, fRecM_index, bits_index a ha]
+    intro d hmem
+    simp only [List.mem_map] at hmem
+    obtain ⟨i, _, rfl⟩ := hmem
+    split <;> simp
+
+/-- **the multi-pairing Miller loop is the product of the single-pair loops** (same digits): with `final_exp_mul` of
+    Props/C04.lean, one final exponentiation of the shared loop = the product of the pairings -/
+theorem mil_multi_is_product (pairs : List (T × P)) (ds : List ℤ) :
+    (fRecM L2 L pairs ds (1, 1)).1 = (pairs.map fun qp => (fRecM L2 L [qp] ds (1, 1)).1).prod := by
+  have := (fRecM_prod L2 L pairs ds (fun _ => 1) 1).1
+  simpa using this
+
+end miller
+
 /-! ### the hypotheses are satisfiable: the shipped parameters (x, sparse form as stored by fp_prime_set_pairf) -/
 
--- BN-P256: x = −(2^62 + 2^55 + 1)
+-- BN-P254 (BN_254): x = −(2^62 + 2^55 + 1)
 example : spsVal [0, 55, 62] = |(-(2 ^ 62 + 2 ^ 55 + 1) : ℤ)| := by decide +kernel
 -- BLS12-381: x = −0xd201000000010000, even: the lowered form is used
 example : spsVal [16, 48, 57, 60, -62, 64] = |(-0xd201000000010000 : ℤ)| := by decide +kernel
